@@ -67,6 +67,11 @@ def fixture_classes(tier: str, seed: int):
                 if s.decomposition_function(c) is not None:
                     out.append((c, s))
                     forced.append((c, s))
+    # one entry per (class, strategy): differently written pattern lists may denote the same class
+    seen_pairs = {}
+    for c, st in out:
+        seen_pairs.setdefault((c, type(st).__name__), (c, st))
+    out = list(seen_pairs.values())
     rnd = random.Random(seed + 9)
     rnd.shuffle(out)
     if tier == "quick":
